@@ -1296,11 +1296,20 @@ PINNED_NAMES = ROLE_FNS + ("xs::store::Store::new", "xs::store::Store::append", 
                 "xs::store::idx_topic_key_from_frame", "xs::store::idx_context_key_range_end", "xs::store::ttl::parse_ttl")
 
 
+_INHERENT_IMPL_ELSEWHERE = re.compile(r"(?:[A-Za-z_][A-Za-z0-9_]*::)+<impl ((?:[A-Za-z_][A-Za-z0-9_]*::)*[A-Za-z_][A-Za-z0-9_]*)>::")
+
+
 class Crate:
     def __init__(self, path, local_prefix, renames=None):
         with open(path) as fh:
             text = fh.read()
         text = text.replace("crate::", local_prefix + "::")
+        # an inherent method defined in an `impl Type` block that lives in another module than the type is printed
+        # `that::module::<impl the::Type>::method` by rustc: it is the method `the::Type::method`
+        # (local types only: `core::str::<impl str>::len` and the like are how rules name std methods)
+        text = _INHERENT_IMPL_ELSEWHERE.sub(
+            lambda m: (m.group(1) + "::") if m.group(0).startswith(local_prefix + "::")
+            and m.group(1).startswith(local_prefix + "::") else m.group(0), text)
         for (actual, expected) in (renames or []):
             # an item the rules know by its path was moved to another module (`mod gc;` split out of store/mod.rs): it is given its
             # old name back everywhere (definitions, call sites, closures below it), so that every rule reads the tree as before
@@ -1375,8 +1384,15 @@ class Facts:
             if any(d.startswith(n + "::") for d in known_fn) or any(d.startswith(n + "::") for d in known_adt):
                 continue            # a module path
             parent = n.rsplit("::", 1)[0]
-            if parent in known_adt or parent in methods_owner or parent.split("::")[-1][:1].isupper():
-                continue            # a method of a type (it keeps the type's path wherever its impl block lives): not a moved item
+            if parent in known_adt or parent in methods_owner:
+                continue            # a method of a type that is where it was (it keeps the type's path wherever its impl block lives)
+            if parent.split("::")[-1][:1].isupper():
+                # a method of a type that is not where it was: the type moved, and its methods with it
+                tl, troot = parent.split("::")[-1], parent.split("::")[0]
+                tc = [d for d in have_adt.get(tl, []) if d.split("::")[0] == troot]
+                if len(tc) == 1 and tc[0] != parent and not any(a == tc[0] for (a, e) in out):
+                    out.append((tc[0], parent))
+                continue
             last = n.split("::")[-1]
             root = n.split("::")[0]
             cands = [d for d in have_fn.get(last, []) + have_adt.get(last, []) if d.split("::")[0] == root]
